@@ -43,6 +43,11 @@ def git_config_calls(cg, fn):
         def cv(e):
             v = const_val(e)
             if v is NOVAL and isinstance(e, ast.Name):
+                # a local bound exactly once to a literal
+                loc = [x for x in ast.walk(fn) if isinstance(x, ast.Assign) and any(isinstance(t, ast.Name) and t.id == e.id for t in x.targets)]
+                others = [x for x in ast.walk(fn) if isinstance(x, ast.Name) and x.id == e.id and isinstance(x.ctx, ast.Store)]
+                if len(loc) == 1 and len(others) == 1 and const_val(loc[0].value) is not NOVAL:
+                    return const_val(loc[0].value)
                 # a module-level constant (assigned once, a literal)
                 m = cg.repo.mod_of(fn)
                 vals = m.assigns.get(e.id, [])
